@@ -100,7 +100,7 @@ package kcache
 @*/
 
 /*@ func (*kcache._cache).doUpdate
-  props C01 C02
+  props C01 C02 C06
   theory cache
   requires [valid-c] (and (not (= {c} vnil)) (not (= {c.items} vnil)) (not (= {c.filter} vnil)) (not (= {c.log} vnil)))
   requires [evt] (and (not (= {evt} vnil)) (not (= (evt-res {evt}) vnil)))
@@ -161,7 +161,7 @@ package kcache
 @*/
 
 /*@ func (*kcache._cache).doSync
-  props C01 C02
+  props C01 C02 C06 C07 C03
   theory sync
   requires [valid-c] (and (not (= {c} vnil)) (not (= {c.items} vnil)) (not (= {c.filter} vnil)) (not (= {c.log} vnil)))
   requires [list-nonnil] (forall ((j Int)) (=> (and (<= 0 j) (< j (slen {list}))) (not (= (select (sarr {list}) j) vnil))))
@@ -245,7 +245,7 @@ package kcache
 @*/
 
 /*@ func (*kcache._cache).doRefilter
-  props C01 C02 C07
+  props C01 C02 C06 C07
   theory sync
   requires [valid-c] (and (not (= {c} vnil)) (not (= {c.items} vnil)) (not (= {c.log} vnil)) (not (= {filter} vnil)))
   requires [list-nonnil] (forall ((j Int)) (=> (and (<= 0 j) (< j (slen {list}))) (not (= (select (sarr {list}) j) vnil))))
